@@ -186,6 +186,18 @@ pub fn run(args: &Args) -> i32 {
             }
         }
         rig.run(400_000, sink!());
+        // a tap with two links may be an *explicit peer* of its second node: it then publishes only through its first
+        // node, so the second one learns its messages from a third party and must still not send them to their source
+        let mut explicit_taps: HashSet<usize> = HashSet::new();
+        for (t, l) in &tap_links {
+            if l.len() == 2 && rng.bool() {
+                let pt = rig.peer(*t);
+                rig.gs(l[1]).add_explicit_peer(&pt);
+                rig.net.touch(l[1]);
+                explicit_taps.insert(*t);
+            }
+        }
+        rig.run(400_000, sink!());
         // K heartbeats to let every node fill its mesh
         for _ in 0..3 {
             let mut o: Vec<usize> = (0..n).collect();
@@ -296,7 +308,7 @@ pub fn run(args: &Args) -> i32 {
             let use_tap = !tap_links.is_empty() && rng.chance(1, 3);
             if use_tap {
                 let (t, l) = tap_links[rng.usize(tap_links.len())].clone();
-                let x = l[rng.usize(l.len())];
+                let x = if explicit_taps.contains(&t) { l[0] } else { l[rng.usize(l.len())] };
                 let key = rig.net.nodes[t].key.clone();
                 let msg = PubMsg::signed(&key, TOPIC, &data, 1000 + k as u64);
                 let px = rig.peer(x);
@@ -421,6 +433,7 @@ pub fn run(args: &Args) -> i32 {
         check.count("messages_published", publisher.len() as u64);
         check.count("application_deliveries", received.iter().map(|r| r.values().map(|c| *c as u64).sum::<u64>()).sum());
         check.count("cases_with_taps", (!tap_links.is_empty()) as u64);
+        check.count("taps_that_are_explicit_peers_of_a_node", explicit_taps.len() as u64);
         check.count("cases_with_a_blacklisted_mesh_neighbour", blacklisted.is_some() as u64);
         check.count("cases_with_random_author", random_author as u64);
         check.count("edges_whose_first_connection_was_replaced", replaced_edges.len() as u64);
